@@ -584,8 +584,37 @@ func (w *walker) walkField(fpath string, f flatField, set func(any) any, at stri
 			}
 			w.walkStruct(fpath, ft.Elem(), d, func(m map[string]any) any { return set(m) }, pv, pdepth)
 		} else if fk := kindName(ft.Elem()); fk != "" {
-			// pointer to a scalar: a lone placeholder has no castable kind
+			// pointer to a scalar: the hooks see the POINTER target first, a lone placeholder has no castable kind there
+			// ("unsupported kind"); a text with a placeholder inside it is substituted (no demand for the lone form: the
+			// statement names string / numeric / boolean / duration fields; the outcome is compared with the model)
 			w.add(gcase{kind: "mistyped", path: fpath, at: "-", exp: "reject", cfg: set(map[string]any{"a": 1})})
+			var good any
+			var lone string
+			switch strings.SplitN(fk, ":", 2)[0] {
+			case "bool":
+				good, lone = true, "C17_TRUE"
+			case "str":
+				good, lone = "v", "C17_STR"
+			case "int", "uint":
+				good, lone = 17, "C17_INT"
+			case "float":
+				good, lone = 2.5, "C17_FLOAT"
+			case "dur":
+				good, lone = "3s", "C17_DUR"
+			}
+			w.add(gcase{kind: "valid", path: fpath, at: "-", exp: "accept", cfg: set(good)})
+			w.add(gcase{kind: "ph-ptr", path: fpath + "#lone", at: "-", fk: fk, exp: "none", cfg: set(ph("env", lone)), uses: true})
+			w.add(gcase{kind: "ph-ptr", path: fpath + "#lone-prop", at: "-", fk: fk, exp: "none", cfg: set(ph("property", strings.ToLower(lone[4:]))), uses: true})
+			w.add(gcase{kind: "ph-ptr", path: fpath + "#blank", at: "-", fk: fk, exp: "none", cfg: set(" " + ph("env", lone)), uses: true})
+			w.add(gcase{kind: "ph-unset", path: fpath, at: "-", fk: fk, exp: "reject", cfg: set(ph("env", "C17_UNSET")), uses: true})
+			w.add(gcase{kind: "ph-unset", path: fpath + "#embedded", at: "-", fk: fk, exp: "reject", cfg: set("x-" + ph("env", "C17_UNSET")), uses: true})
+			if strings.HasPrefix(fk, "str") {
+				w.add(gcase{kind: "ph-ptr", path: fpath + "#embedded", at: "-", fk: fk, exp: "accept", cfg: set("x-" + ph("env", lone)), uses: true})
+			}
+			if fk == "dur" {
+				w.add(gcase{kind: "valid", path: fpath + "#number", at: "-", exp: "accept", cfg: set(30)})
+				w.add(gcase{kind: "mistyped", path: fpath + "#no-unit", at: "-", exp: "reject", cfg: set("30")})
+			}
 		}
 	case reflect.Slice:
 		w.add(gcase{kind: "mistyped", path: fpath, at: "-", exp: "reject", cfg: set(map[string]any{"a": 1})})
@@ -625,6 +654,21 @@ func (w *walker) walkField(fpath string, f flatField, set func(any) any, at stri
 			w.add(gcase{kind: "ph-unset", path: fpath, at: "-", exp: "reject", cfg: set(map[string]any{"k": "${property:" + propFile + "#nosuch}"}), uses: true})
 		}
 	}
+}
+
+// twinOther: a value of the same kind as the one the exact name holds, but another one
+func twinOther(base string) string {
+	switch base {
+	case "bool":
+		return "0"
+	case "str":
+		return "other"
+	case "float":
+		return "9.25"
+	case "dur":
+		return "11s"
+	}
+	return "99"
 }
 
 func ph(kind, name string) string {
@@ -786,6 +830,30 @@ func (w *walker) scalarCases(fpath string, f flatField, fk string, tags []string
 		w.add(gcase{kind: "ph-space", path: fpath, at: "-", fk: fk, exp: "none", cfg: set(" " + ph("env", p.env) + " "), uses: true})
 	}
 	w.add(gcase{kind: "ph-unset", path: fpath, at: "-", fk: fk, exp: "reject", cfg: set(ph("env", "C17_UNSET")), uses: true})
+	if p.env != "" {
+		// round 6: the referenced name is NOT set, a variable whose name differs from it in letter case only IS set (with a
+		// value the field would accept): variable names are case-sensitive, the placeholder names an unset variable
+		lo := strings.ToLower(p.env)
+		mixed := p.env[:5] + strings.ToLower(p.env[5:])
+		w.add(gcase{kind: "ph-twin", path: fpath + "#lower", at: "-", fk: fk, exp: "reject", cfg: set("${env:" + lo + "}"), uses: true})
+		if w.root == "synth" || w.root == "probe" {
+			w.add(gcase{kind: "ph-twin", path: fpath + "#mixed", at: "-", fk: fk, exp: "reject", cfg: set("${env:" + mixed + "}"), uses: true})
+		}
+		// the other way round: the variable that is set has the lower-case name
+		tw := "c17_lo_" + strings.ToLower(p.prop)
+		w.add(gcase{kind: "ph-twin", path: fpath + "#upper", at: "-", fk: fk, exp: "reject", cfg: set("${env:" + strings.ToUpper(tw) + "}"), uses: true,
+			env: map[string]string{tw: p.raw}})
+		// and the exact name next to its twin still resolves to its OWN value
+		// (names of their own: the environment of the process is shared by all cases, C17_LO_… must stay unset)
+		ex := "c17_ex_" + strings.ToLower(p.prop)
+		if w.root == "synth" || w.root == "probe" {
+			w.add(gcase{kind: "ph-twin", path: fpath + "#exact", at: at, fk: fk, raw: p.raw, exp: "cast", cfg: set("${env:" + ex + "}"), uses: true,
+			env: map[string]string{ex: p.raw, strings.ToUpper(ex): twinOther(base)}})
+		}
+		if base == "str" && !isEP && (w.root == "synth" || w.root == "probe" || w.root == "cli") {
+			w.add(gcase{kind: "ph-twin", path: fpath + "#embedded", at: "-", fk: fk, exp: "reject", cfg: set("a-${env:" + lo + "}-b"), uses: true})
+		}
+	}
 	w.add(gcase{kind: "ph-noprop", path: fpath, at: "-", fk: fk, exp: "reject", cfg: set(ph("property", "nosuch")), uses: true})
 	w.add(gcase{kind: "ph-nofile", path: fpath, at: "-", fk: fk, exp: "reject", cfg: set("${property:/var/tmp/c17-props/absent.properties#str}"), uses: true})
 	switch base {
@@ -1190,6 +1258,12 @@ type synthConfig struct {
 	Note  string        `config:"note"`
 	Pause time.Duration `config:"pause"`
 	Flag  bool          `config:"flag"`
+	// round 6: pointers to scalars (the hook chain sees the pointer type first)
+	PInt  *int           `config:"p-int"`
+	PStr  *string        `config:"p-str"`
+	PDur  *time.Duration `config:"p-dur"`
+	PBool *bool          `config:"p-bool"`
+	PF64  *float64       `config:"p-f64"`
 }
 
 type synthSub struct {
@@ -1239,7 +1313,8 @@ func (c gcase) line() string {
 		vars := map[string]string{}
 		for _, m := range []map[string]string{envTable, c.env} {
 			for k, v := range m {
-				if strings.Contains(cfgText, k) {
+				// also the case twins of a name the configuration uses (c17_int names no variable although C17_INT is set)
+				if strings.Contains(cfgText, k) || strings.Contains(strings.ToUpper(cfgText), strings.ToUpper(k)) {
 					vars[k] = v
 				}
 			}
